@@ -99,18 +99,26 @@ def check(rep, tier, seed):
     # spectrum is computed here from the property's own formula with exact integer binomials (an oracle, not the model)
     from math import comb
     big_jobs, big_meta = [], []
-    for k in range(2 if tier == "quick" else 8):
-        n = rng.randrange(520, 640)
+    seam = [85, 86, 87, 171, 172] if tier == "quick" else [84, 85, 86, 87, 88, 170, 171, 172, 173]
+    sizes_big = [rng.randrange(520, 640) for _ in range(2 if tier == "quick" else 8)]
+    for k, n in enumerate(seam + sizes_big):
         cols = ["s%d" % i for i in range(n)]
         recs = []
         for _ in range(4):
             miss = rng.choice([0.0, 0.02, 0.3])
             recs.append([("./." if rng.random() < miss else rng.choice(["0/0", "0/1", "1/1", "0|1"])) for _ in cols])
-        m = rng.choice([n, n + 1, 2 * n - 40, n // 2 * 2 + 1])
+        if n < 500:
+            # around 2n = 170..174 chromosomes the factorial table ends and the ln-gamma branch starts: singletons,
+            # doubletons and nearly fixed sites put 169..173 into the factorial arguments
+            recs.append(["0/1"] + ["0/0"] * (n - 1)); recs.append(["1/1"] * (n - 1) + ["0/1"]); recs.append(["0/1", "./."] + ["0/0"] * (n - 2))
+            recs.append(["1/1"] + ["0/0"] * (n - 1)); recs.append(["0/0"] * n); recs.append(["1/1"] * n)
+            m = rng.choice([10, 20, 2 * n - 2, 2 * n - 1])
+        else:
+            m = rng.choice([n, n + 1, 2 * n - 40, n // 2 * 2 + 1])
         big_jobs.append((["create", "--precision", "9", "--project-shape", str(m + 1)], render_vcf(cols, recs)))
         big_meta.append((n, m, recs))
     for job, (rc, so, se), (n, m, recs) in zip(big_jobs, run_cli_many(big_jobs, timeout=600), big_meta):
-        rep.count("create-project-large-cohort", "%d samples -> %d chromosomes" % (n, m), True)
+        rep.count("create-project-large-cohort", "%d samples, %d records -> %d chromosomes" % (n, len(recs), m), True)
         expect = [Fraction(0)] * (m + 1)
         for r in recs:
             called = [g for g in r if "." not in g]
@@ -129,7 +137,7 @@ def check(rep, tier, seed):
                     ok = False
                     break
         if not ok:
-            rep.fail(kind="property-oracle", cls="create-project:large-cohort", case="%d samples, 4 records, --project-shape %d" % (n, m + 1),
+            rep.fail(kind="property-oracle", cls="create-project:large-cohort", case="%d samples, %d records, --project-shape %d" % (n, len(recs), m + 1),
                      argv=["sfs"] + job[0], stdin=job[1].decode()[:200000], observed={"rc": rc, "stdout": so.decode(errors="replace")[:300]},
                      expected="sum over covered records of Hypergeom(k; t, a, %d), e.g. first entries %s" % (m, [float(x) for x in expect[:3]]),
                      detail="create --project on a cohort of hundreds of samples differs from the hypergeometric formula (exact integer oracle) by more than 4e-8")
